@@ -96,7 +96,8 @@ class RefNUTS:
                 n = int(logu <= H)
                 st = int(logu < 1000 + H)
                 dH = H - H0
-                a = 1.0 if dH > 0 else float(np.exp(dH))
+                # Metropolis probability of the leaf; a leaf whose energy is not a number can never be moved to: probability 0
+                a = 0.0 if np.isnan(dH) else (1.0 if dH > 0 else float(np.exp(dH)))
             leaf = len(self.leaves) - 1
             return x1, r1, g1, x1, r1, g1, x1, l1, g1, n, st, a, 1, leaf
         xm, rm, gm, xp, rp, gp, xc, lc, gc, n, st, a, na, lf = yield from self.build(x, r, g, H0, logu, v, j - 1)
